@@ -111,6 +111,23 @@ def _split(fn, recv, args, kw):
 
 SER = dict(write_call="file.write", param_ctor="MSDParameter", param_vars=("param", "notes_param"), calls={"MSDParameter": _msd_parameter})
 
+def _join(fn, recv, args, kw):
+    import ast as _ast
+    from gen_code import Unsupported
+    if isinstance(recv, _ast.Constant) and isinstance(recv.value, str) and len(args) == 1 and not kw:
+        from gen_code import lean_str
+        return "(joinWith %s %s)" % (lean_str(recv.value), fn.expr(args[0]))
+    raise Unsupported("join on a non-literal separator")
+
+
+# an MSD parameter is the model's Param (component list); `.value` is None for a key-only parameter
+PARSE = dict(
+    names={"param.key": "(Param.key param)", "param.value": "((Param.value param).getD [])", "BaseSimfile.MULTI_VALUE_PROPERTIES": "T.multiValue"},
+    optional_exprs={"param.value": "(Param.value param)"},
+    calls={"param.components[1:]": "param.comps.tail", "SMChart.from_msd": "(Simfile.GenCode.smChartFromMsd [] none {0})",
+           "SSCChart": "(some (⟨[]⟩ : SSCChart))", "SSCCharts": "[]", "SMCharts": "[]", "iter": "{0}"},
+    methods={"upper": "(upper {self})", "join": _join})
+
 BINDINGS = [
     dict(file="simfile/timing/engine.py", qual="TaggedEvent.__lt__", module="Engine", lean="taggedEventLt",
          params=[("self", "TEvent"), ("other", "TEvent")], ret="Bool", model="TEvent.lt", theorem="taggedEventLt_eq",
@@ -280,4 +297,35 @@ BINDINGS = [
          names={"BaseSimfile.MULTI_VALUE_PROPERTIES": "T.multiValue", "value": "(value.getD [])"},
          methods={"items": "{self}.props", "split": _split},
          writer_calls={"self.charts.serialize": "(Simfile.GenCode.serSSCCharts self.charts){_0}"}),
+
+    # ---- loaders (C03, C04): loops that fill the object become folds over the parameter list (state = the objects being filled)
+    dict(file="simfile/sm.py", qual="SMChart._from_msd", module="Load", lean="smChartFromMsd", ret_mode="except",
+         state_params=[("fields", "Dict"), ("extradata", "Option (List Str)")], params=[("values", "List Str")], ignore_params=["self"],
+         ret="Except Err SMChart", model="smChartFromMsd", theorem="smChartFromMsd_eq", properties=["C03", "C04", "C01"],
+         imports=["Simfile.Model.Objects"], fallthrough="(Except.ok ({ fields := fields, extradata := extradata } : SMChart))",
+         names={"SM_CHART_PROPERTIES": "T.smChartProperties"}, raises={"ValueError": "Err.valueError"},
+         calls={"len": "({0}).length", "zip": "(({0}).zip {1})", "list": "{0}",
+                "values[len(SM_CHART_PROPERTIES):]": "(values.drop T.smChartProperties.length)"},
+         methods={"strip": "(strip {self})"},
+         mutations={"self[]=": ("fields", "(Dict.set fields {key} {value})"), "self.extradata=": ("extradata", "(some {value})")}),
+    dict(file="simfile/sm.py", qual="SMSimfile._parse", module="Load", lean="loadSM", ret_mode="except",
+         state_params=[("props", "Dict"), ("charts", "List SMChart")], params=[("parser", "List Param")], ignore_params=["self"],
+         ret="Except Err SMSimfile", model="loadSM", theorem="loadSM_eq", properties=["C03", "C04", "C01"],
+         imports=["Simfile.Model.Objects"], fallthrough="(Except.ok ({ props := props, charts := charts } : SMSimfile))", **PARSE,
+         mutations={"self[]=": ("props", "(Dict.set props {key} {value})"), "self._charts=": ("charts", "[]"),
+                    "self.charts.append()": ("charts", "(charts ++ [{0}])", True)}),
+    dict(file="simfile/ssc.py", qual="SSCSimfile._parse", module="Load", lean="loadSSC", ret_mode="plain",
+         state_params=[("props", "Dict"), ("charts", "List SSCChart")], params=[("parser", "List Param")], ignore_params=["self"],
+         ret="SSCSimfile", model="loadSSC", theorem="loadSSC_eq", properties=["C03", "C04", "C02"],
+         imports=["Simfile.Model.Objects"], fallthrough="({ props := props, charts := charts } : SSCSimfile)", **PARSE,
+         optional_locals=("value",), local_types={"value": "Option Str", "partial_chart": "Option SSCChart"},
+         mutations={"self[]=": ("props", "(Dict.set props {key} {value})"), "self.charts=": ("charts", "[]"),
+                    "partial_chart[]=": ("partial_chart", "(partial_chart.map (fun py_c => (⟨Dict.set py_c.props {key} {value}⟩ : SSCChart)))"),
+                    "self.charts.append()": ("charts", "(charts ++ ({0}).toList)", False)}),
+    dict(file="simfile/ssc.py", qual="SSCChart._parse", module="Load", lean="loadSSCChart", ret_mode="except",
+         state_params=[("props", "Dict")], params=[("parser", "List Param")], ignore_params=["self"],
+         ret="Except Err SSCChart", model="loadSSCChart", theorem="loadSSCChart_eq", properties=["C03", "C04", "C02"],
+         imports=["Simfile.Model.Objects"], fallthrough="(Except.ok (⟨props⟩ : SSCChart))", **PARSE,
+         raises={"ValueError": "Err.valueError", "StopIteration": "Err.stopIteration"},
+         mutations={"self[]=": ("props", "(Dict.set props {key} {value})")}),
 ]
